@@ -27,6 +27,10 @@ def cases(tier, rng):
             # a subcircuit inside a macro body, called from the main body
             p["macros"].append(("ms", ["x"], ("seq", [("sub", None, [("gate", "X", [("id", "x")])])])))
             p["body"].append(("gate", "ms", [("q", "q", 0)]))
+        if i % 3 == 1 and p["lets"]:
+            # a macro parameter that shadows a let (the override must not reach it), used as a qubit index and a loop count
+            p["macros"].append(("msh", ["rr", "k1"], ("seq", [("gate", "H", [("q", "rr", "k1")]), ("loop", "k1", [("gate", "X", [("q", "rr", 0)])])])))
+            p["body"].append(("gate", "msh", [("id", "q"), ("num", rng.choice([0, 1]))]))
         text = ref.to_text(p)
         try:
             ref.static_valid(p)
@@ -34,9 +38,11 @@ def cases(tier, rng):
         except ref.RefError:
             continue
         ov = None
-        if i % 4 == 1 and any(l[0] == "k1" for l in p["lets"]):
-            ov = {"k1": rng.choice([0, 1, 2])}
+        if i % 2 == 1 and any(l[0] == "k1" for l in p["lets"]):
+            # an override may change a let that bounds an alias slice, sizes a loop or indexes a qubit
+            ov = rng.choice([{"k1": rng.choice([0, 1, 2])}, {"k0": rng.choice([0, 1])}, {"k0": rng.choice([0, 1]), "k1": rng.choice([1, 2])}])
             try:
+                ref.static_valid(p, overrides=ov)
                 ref.sem(p, overrides=ov)
             except ref.RefError:
                 ov = None
